@@ -24,6 +24,10 @@ pub enum Corr {
     DeleteLeaf(usize, usize),
     DeleteAuth(usize, usize),
     DropLayerWitness,
+    /// the evaluation point of query i removed (points one shorter than values): the last queries must not go unchecked
+    DeletePoint(usize),
+    /// the input value of query i removed
+    DeleteValue(usize),
 }
 impl Corr {
     pub fn kind(&self) -> &'static str {
@@ -42,6 +46,8 @@ impl Corr {
             Corr::DeleteLeaf(..) => "delete-leaf",
             Corr::DeleteAuth(..) => "delete-auth",
             Corr::DropLayerWitness => "drop-layer-witness",
+            Corr::DeletePoint(_) => "delete-eval-point-of-a-query",
+            Corr::DeleteValue(_) => "delete-input-value",
         }
     }
     pub fn to_json(&self) -> Value {
@@ -60,6 +66,8 @@ impl Corr {
             Corr::DeleteLeaf(t, i) => json!({"c": "delleaf", "t": t, "i": i}),
             Corr::DeleteAuth(t, i) => json!({"c": "delauth", "t": t, "i": i}),
             Corr::DropLayerWitness => json!({"c": "droplayer"}),
+            Corr::DeletePoint(i) => json!({"c": "delpoint", "i": i}),
+            Corr::DeleteValue(i) => json!({"c": "delvalue", "i": i}),
         }
     }
     pub fn from_json(v: &Value) -> Option<Corr> {
@@ -79,6 +87,8 @@ impl Corr {
             "delleaf" => Corr::DeleteLeaf(g("t")?, g("i")?),
             "delauth" => Corr::DeleteAuth(g("t")?, g("i")?),
             "droplayer" => Corr::DropLayerWitness,
+            "delpoint" => Corr::DeletePoint(g("i")?),
+            "delvalue" => Corr::DeleteValue(g("i")?),
             _ => return None,
         })
     }
@@ -107,6 +117,12 @@ impl Corr {
                 inst.leaves.pop();
                 inst.auths.pop();
             }
+            Corr::DeletePoint(i) => {
+                inst.points.remove(*i);
+            }
+            Corr::DeleteValue(i) => {
+                inst.values.remove(*i);
+            }
         }
     }
 }
@@ -115,6 +131,8 @@ pub fn corruptions(inst: &Instance, dense: bool) -> Vec<Corr> {
     let mut out = Vec::new();
     for i in 0..inst.values.len() {
         out.push(Corr::Value(i));
+        out.push(Corr::DeletePoint(i));
+        out.push(Corr::DeleteValue(i));
     }
     for t in 0..inst.leaves.len() {
         for i in 0..inst.leaves[t].len() {
